@@ -11,6 +11,7 @@ RULE = ("programs from the typed generator (vf/progs.py; depth/statement bounds 
         "defines (tagged values: int vs float kept apart, tuple field order kept). distinct = distinct source "
         "texts; non-trivial = >=3 distinct construct kinds and accepted by the parser.")
 RULE += (" " + 'Also: an exhaustive small-domain grid of 2,074 one-binding programs (ranges over start, end in 0..6 x step in none,1,2,3,5,7,0 and negative ones; int and float arithmetic and comparisons over all operand pairs of small pools; `is` over every type name x value kind; the four casts of every value kind and of 16 string forms; mixed-type ==, +, in; not, &&, || on every value kind; select on every value kind; boolean selects over 8 arm sets with and without default), judged by the same reference interpreter.')
+RULE += (" " + 'Round 6: int() of a float truncates towards zero (types_test.ucg: `truncates`), with a grid of 15 floats on both sides of zero.')
 
 
 def judge_program(probe, stmts, text=None, fresh=False):
